@@ -31,7 +31,7 @@ STR_POOL = [
     ('say "hi"', "q"), ("multi\nline", "m"), ("100%", ""), ("a/b/c.tif", ""), ("-12.5e3x", ""),
     ("TRUE", ""), ("+proj=utm +zone=30", ""), ("tab\there", ""), (" lead", ""), ("trail ", ""),
     ("", ""), ("init=epsg:4326", ""), ("wms_title", ""), ("MiXeD Case", ""), ("0", ""), ("7", ""),
-    ("name with END inside", ""), ("/* not a comment */", ""), ("http://x.y/z?a=1&b=2", ""),
+    ("name with END inside", ""), ("/* not a comment */ x", ""), ("http://x.y/z?a=1&b=2", ""),
     ("Caf\u00e9 \u2013 d\u00e9j\u00e0", "n"), ("a\\\\b", ""), ("key=value", ""), ("%runtime%", ""),
 ]
 # contents that look like something else; only used where a check asks for them explicitly
@@ -89,7 +89,7 @@ class Tok:
 
 
 class Concretiser:
-    def __init__(self, seed=0, lookalikes=False, ascii_only=False, no_multiline=False):
+    def __init__(self, seed=0, lookalikes=False, ascii_only=False, no_multiline=False, avoid_quote=None):
         self.rng = random.Random(seed)
         r = self.rng
 
@@ -102,6 +102,8 @@ class Concretiser:
             sp = [x for x in sp if "n" not in x[1]]
         if no_multiline:
             sp = [x for x in sp if "m" not in x[1]]
+        if avoid_quote:
+            sp = [x for x in sp if avoid_quote not in x[0]]
         self.strs = perm(sp)
         self.ints = perm(INT_POOL)
         self.floats = perm(FLOAT_POOL)
@@ -126,6 +128,8 @@ class Concretiser:
         if sh == "char":
             return self._pick(self.chars, v["id"])
         if sh == "strpat":
+            if v.get("w") and not v["w"].startswith("&#"):
+                return v["w"]
             return "&#%d;" % (10140 + v["id"])
         if sh == "enum":
             return case(v["w"], v["cs"])
@@ -257,6 +261,8 @@ class Concretiser:
             s = self.content(av["of"])
             if av.get("f") == "lower":
                 s = s.lower()
+            elif av.get("f") == "upper":
+                s = s.upper()
             return s
         if py == "int":
             return int(self.content(av["of"]))
